@@ -108,7 +108,10 @@ def solve_goal(goal):
         except SymPyException:
             return False
 
-        return lhs != rhs
+        # lhs != rhs only says the two expressions are written differently.
+        # Accept when the difference is a constant known to be non-zero.
+        diff = sympy.simplify(lhs - rhs)
+        return not diff.free_symbols and diff.is_zero is False
     elif goal.is_equals():
         try:
             lhs, rhs = convert(goal.lhs), convert(goal.rhs)
